@@ -12,11 +12,11 @@ import (
 
 // The probe vocabulary (processor definitions written into the temp processors directory).
 var vocab = []ptypeDef{
-	{"PA", []outDef{{"a", "any"}, {"b", "any"}}},                             // two-way branch
-	{"PU", []outDef{{"", "any"}}},                                            // single unnamed output
-	{"PG", []outDef{{"", "res"}}},                                            // GenerateResponse-like: answers the request
+	{"PA", []outDef{{"a", "any"}, {"b", "any"}}},                            // two-way branch
+	{"PU", []outDef{{"", "any"}}},                                           // single unnamed output
+	{"PG", []outDef{{"", "res"}}},                                           // GenerateResponse-like: answers the request
 	{"PM", []outDef{{"a", "any"}, {"b", "any"}, {"e", "res"}, {"", "any"}}}, // branch or answer
-	{"PR", []outDef{{"a", "req"}, {"b", "res"}}},                             // direction-specific names
+	{"PR", []outDef{{"a", "req"}, {"b", "res"}}},                            // direction-specific names
 }
 
 func ptypeByName(n string) *ptypeDef {
